@@ -84,9 +84,11 @@ class Env:
     def tensor(self, shape=None):
         return ttb.tensor(self.arr(shape))
 
+    fill = "some"      # sparsity pattern of every sparse holder this Env builds: "some" | "none" (all-zero) | "all" (no zero)
+
     def sparr(self, shape=None):
         shape = self.shape if shape is None else shape
-        return gen.sparsify(self.rng, self.arr(shape), "some")
+        return gen.sparsify(self.rng, self.arr(shape), self.fill)
 
     def sptensor(self, shape=None, A=None):
         A = self.sparr(shape) if A is None else A
@@ -872,6 +874,27 @@ def _(e):
     m = int(e.rng.integers(0, e.N))
     data = gen.normals(e.rng, (e.shape[m] * 2,))
     return "ktensor.update", K.update, (m, data), {}
+
+
+@entry("ktensor.update(weights)", ALLN, inplace=True)
+def _(e):
+    K = e.ktensor(R=2)
+    return "ktensor.update", K.update, (-1, gen.normals(e.rng, (2,))), {}
+
+
+@entry("ktensor.update(weights+modes)", ALLN, inplace=True)
+def _(e):
+    K = e.ktensor(R=2)
+    modes = [-1] + sorted(int(x) for x in e.rng.permutation(e.N)[: int(e.rng.integers(1, e.N + 1))])
+    data = gen.normals(e.rng, (2 + 2 * sum(e.shape[m] for m in modes[1:]),))
+    return "ktensor.update", K.update, (modes, data), {}
+
+
+@entry("ktensor.update(everything, tovec)", ALLN, inplace=True)
+def _(e):
+    K = e.ktensor(R=2)
+    data = np.asarray(e.ktensor(R=2).tovec(True), dtype=float)
+    return "ktensor.update", K.update, ([-1] + list(range(e.N)), data), {}
 
 
 @entry("ktensor.extract", ALLN)
